@@ -488,7 +488,7 @@ func runH3Fields(r *hk.Run, rng *hk.Rand) {
 	}
 	// (2) random sections
 	n := r.Scale(9000, 400000)
-	modelEvery := n / r.Scale(3000, 30000)
+	modelEvery := n / r.Scale(1800, 30000)
 	for i := 0; i < n; i++ {
 		m := i%modelEvery == 0
 		switch i % 4 {
